@@ -698,6 +698,15 @@ package fsutil
 //@   ensures symlink: result1 == nil && !fi.IsDir() && fi.Mode() & os.ModeSymlink != 0 ==> cnt(Readlink) == old(cnt(Readlink)) + 1 && arg(Readlink, 0) == path
 //@   ensures nolink: fi.IsDir() || fi.Mode() & os.ModeSymlink == 0 ==> cnt(Readlink) == old(cnt(Readlink))
 
+// every walk starts with its own empty inode map: the first name of an inode *in this walk* is
+// the file, whatever an earlier walk of the same view has seen
+//@ func fs.Walk
+//@   property C09 C17 C11
+//@   requires fs != nil
+//@   modifies heap
+//@   effects *
+//@   at call path/filepath.WalkDir: inode_map_new_and_empty: fresh(seenFiles) && len(seenFiles) == 0 && arg0 == filepath.Join(fs.root, target)
+
 // the walk callback: the root itself is never reported; every other entry is
 // forwarded at most once (exactly once unless the context is done) under its
 // path relative to the root
